@@ -19,7 +19,7 @@ for p in sys.argv[1:]:
         name, stmt = m.group(1), m.group(2).strip()
         if stmt.endswith('.'):
             stmt = stmt[:-1]
-        out.append(f'Check (Props.{p}.{name} :\n  {stmt}).')
+        out.append(f'Goal {stmt}.\nProof. exact Props.{p}.{name}. Qed.')
         out.append(f'Print Assumptions Props.{p}.{name}.')
     (root / 'Audit' / f'{p}.v').write_text('\n'.join(out) + '\n')
     print('wrote', root / 'Audit' / f'{p}.v')
